@@ -205,3 +205,62 @@ def served_bodies(run):
         if r.get('kind') == 'cert' and r.get('status') == 200:
             out.setdefault((r.get('extra') or {}).get('order'), []).append(r)
     return out
+
+
+def run_phases(prop, name, phases, plan0=None, tls=None, keep_ca=False):
+    """Several daemon runs over one storage tree and one mock CA.
+    phases: list of dicts {cfg: f(d, ca) -> config, plan: dict|None, before: f(d, ca)|None,
+                           stop: f(hooks_since_phase_start, ca_log_since_phase_start) -> bool, timeout, env, binary}
+    Returns a Run whose `phases` attribute lists (hook index, ca log index, rc, timed_out, stderr) per phase."""
+    d = C.workdir(prop, name)
+    ca = C.MockCA(d + '/ca', plan0 or {}, tls=tls)
+    run = Run(d)
+    run.phases = []
+    try:
+        for pi, ph in enumerate(phases):
+            if ph.get('plan') is not None:
+                ca.set_plan(ph['plan'])
+            if ph.get('before'):
+                ph['before'](d, ca)
+            cfg = ph['cfg'](d, ca)
+            text = cfg if isinstance(cfg, str) else C.toml_dumps(cfg)
+            with open(d + '/acmed.toml', 'w', encoding='utf-8') as f:
+                f.write(text)
+            hmark = len(C.read_jsonl(d + '/hooks.log'))
+            cmark = len(ca.log())
+            t0 = time.monotonic()
+            dm = C.Daemon(d, d + '/acmed.toml', binary=ph.get('binary', 'acmed_v'), env=ph.get('env'), workers=ph.get('workers'),
+                          extra_args=ph.get('extra_args', ()))
+
+            def cond():
+                return (not dm.alive()) or ph['stop'](C.read_jsonl(d + '/hooks.log')[hmark:], ca.log()[cmark:])
+            ok = C.wait_for(cond, ph.get('timeout', 60), step=0.05)
+            if ok and dm.alive():
+                time.sleep(ph.get('settle', 0.15))
+            rc = dm.stop()
+            run.phases.append({'hooks_from': hmark, 'ca_from': cmark, 'rc': rc, 'timed_out': not ok, 'stderr': dm.stderr_text()[-3000:],
+                               'wall': time.monotonic() - t0})
+            if ph.get('after'):
+                ph['after'](d, ca)
+            if not ok and ph.get('abort_on_timeout', True):
+                break
+        try:
+            run.state = ca.state()
+        except Exception:
+            run.state = {}
+        run.ca_log = ca.log()
+        run.hooks = C.read_jsonl(d + '/hooks.log')
+    finally:
+        ca.stop()
+    return run
+
+
+def phase_slice(run, pi):
+    ph = run.phases[pi]
+    h_to = run.phases[pi + 1]['hooks_from'] if pi + 1 < len(run.phases) else len(run.hooks)
+    c_to = run.phases[pi + 1]['ca_from'] if pi + 1 < len(run.phases) else len(run.ca_log)
+    return run.hooks[ph['hooks_from']:h_to], run.ca_log[ph['ca_from']:c_to]
+
+
+def successes(hooks, cert=None):
+    return [h for h in hooks if C.hook_event(h) == 'post-operation' and h['kv'].get('is_success') == 'true' and (cert is None or h.get('cert') == cert)]
